@@ -656,7 +656,7 @@ func runC05(c *Ctx) {
 	for i := 0; i < n; i++ {
 		img := c05GenImage(c)
 		var shapes []string
-		for j, k := 0, c.Rng.Intn(3); j < k; j++ {
+		for j, k := 0, c.Rng.Intn(4); j < k; j++ {
 			shapes = append(shapes, c05Shapes[c.Rng.Intn(len(c05Shapes))])
 		}
 		if c.Rng.Intn(10) == 0 {
@@ -685,6 +685,29 @@ func runC05(c *Ctx) {
 			c.Case(op, "reject="+tdxErrClass(err), c05PostValidation[tdxErrClass(err)])
 		default:
 			c.Case(op, "ok "+strings.Join(res, ";"), true)
+			// every row is the MRTD of ITS OWN configuration: recomputed with launch options built afresh for the
+			// labelled shape and mode (nothing carried over from the row before), in the documented order
+			var want []string
+			for _, sh := range shapes {
+				o := tdx.LaunchOptionsDefaultTDHOBBug(sh)
+				if m, e := tdx.MRTD(o, append([]byte(nil), fw...)); e == nil {
+					want = append(want, fmt.Sprintf("%d:0:%s", c06ShapeRAM[sh], hx(m[:])))
+				}
+				if early {
+					o2 := tdx.LaunchOptionsDefaultTDHOBBug(sh)
+					o2.DisableUnacceptedMemory = true
+					if m, e := tdx.MRTD(o2, append([]byte(nil), fw...)); e == nil {
+						want = append(want, fmt.Sprintf("%d:1:%s", c06ShapeRAM[sh], hx(m[:])))
+					}
+				}
+			}
+			if m, e := tdx.MRTD(tdx.LaunchOptionsDefault(""), append([]byte(nil), fw...)); e == nil {
+				want = append(want, fmt.Sprintf("0:0:%s", hx(m[:])))
+			}
+			if strings.Join(want, ";") != strings.Join(res, ";") {
+				c.Find("c05/UnsignedTDX/row-not-the-mrtd-of-its-configuration", "a row of tdx.UnsignedTDX is not tdx.MRTD of the image for that row's machine shape and early-accept mode computed with fresh launch options", op+" got="+strings.Join(res, ";")+" want="+strings.Join(want, ";"))
+			}
+			c.Count("unsigned/rows-recomputed")
 			for _, r := range res {
 				if strings.HasSuffix(r, ":"+strings.Repeat("00", 48)) {
 					c.Find("c05/UnsignedTDX/zero-mrtd-endorsed", "an all-zero MRTD was returned as a measurement", op)
